@@ -138,9 +138,21 @@ def generate(rng, tier):
             errs[pos] = 9
             for _ in range(4):
                 yield from history(rng, [dict(log=50, nseg=nseg, ref=3, errs=list(errs))], False, False, False, 'directed')
+    yield from _session_receipts(rng, tier)
+
+
+def _session_receipts(rng, tier):
+    # session level: the real ESME.start() with a scripted SMSC that accepts messages and sends delivery receipts (prompt,
+    # delayed, with an error code, id in the TLV only, right after the response and before the sibling segment's response,
+    # unknown ids, duplicates); no model line, judged by the attribution predicate
+    from corr import c01s
+    yield from c01s.generate_receipts(rng, 300 if tier == 'thorough' else 80)
 
 
 def replay(inp):
+    if inp.get('op') == 'session-receipts':
+        from corr import c01s
+        return c01s.receipt_case(dict(inp['sc']))
     return Case('\n'.join(['c.new 15360 10000000'] + inp.get('lines', [])), '', None, None, inp)
 
 
